@@ -5,6 +5,7 @@ import (
 	"go/token"
 	"go/types"
 	"sort"
+	"strconv"
 	"strings"
 
 	"golang.org/x/tools/go/ssa"
@@ -186,46 +187,72 @@ func checkC04(c *Ctx, r *Report) {
 				if !ok {
 					continue
 				}
-				bo, ok := iff.Cond.(*ssa.BinOp)
-				if !ok || bo.Op != token.EQL {
-					continue
-				}
-				lit, isLit := constString(bo.Y)
-				other := bo.X
-				if !isLit {
-					lit, isLit = constString(bo.X)
-					other = bo.Y
-				}
-				if !isLit {
-					continue
-				}
-				if len(walkFrom(pos{b.Succs[0], 0}, nil, isInstr(st), nil)) > 0 && len(b.Succs[0].Preds) >= 1 {
-					// reachable from the true edge without passing another test's false... accept
-					table[lit] = true
-					tablePos = c.InstrPos(st)
-					// is the value compared the directive's NAME (text before "="), so that private="Set-Cookie" is private?
-					if derivesFrom(other, func(v ssa.Value) bool {
-						c2, ok := v.(*ssa.Call)
-						if !ok {
-							return false
-						}
-						switch calleeName(c2) {
-						case "strings.Cut", "strings.SplitN", "strings.Split", "strings.Index", "strings.IndexByte":
-							for _, a := range c2.Call.Args[1:] {
-								if sep, ok := constString(a); ok && sep == "=" {
-									return true
+				// the test may be a membership predicate over a constant table (isUnstorableDirective(name))
+				var lits []string
+				var other ssa.Value
+				trueIdx := 0
+				if cv, positive := stripNot(iff.Cond); cv != nil {
+					if call, isCall := cv.(*ssa.Call); isCall {
+						if h := helperBody(call); h != nil {
+							if pi, consts, okM := membershipPredicate(h); okM && pi < len(callArgs(call)) {
+								for _, k := range consts {
+									if s, err := strconv.Unquote(k); err == nil {
+										lits = append(lits, s)
+									}
 								}
-								if k, ok := constInt(a); ok && k == '=' {
-									return true
+								other = callArgs(call)[pi]
+								if !positive {
+									trueIdx = 1
 								}
 							}
 						}
-						return false
-					}) {
-						qualified[lit] = true
 					}
-					if !callsInDerivation(other)["strings.ToLower"] && !callsInDerivation(other)["strings.ToUpper"] {
-						folded = false
+				}
+				if len(lits) == 0 {
+					bo, ok := iff.Cond.(*ssa.BinOp)
+					if !ok || bo.Op != token.EQL {
+						continue
+					}
+					lit, isLit := constString(bo.Y)
+					other = bo.X
+					if !isLit {
+						lit, isLit = constString(bo.X)
+						other = bo.Y
+					}
+					if !isLit {
+						continue
+					}
+					lits = []string{lit}
+				}
+				for _, lit := range lits {
+					if len(walkFrom(pos{b.Succs[trueIdx], 0}, nil, isInstr(st), nil)) > 0 && len(b.Succs[trueIdx].Preds) >= 1 {
+						// reachable from the true edge without passing another test's false... accept
+						table[lit] = true
+						tablePos = c.InstrPos(st)
+						// is the value compared the directive's NAME (text before "="), so that private="Set-Cookie" is private?
+						if derivesFrom(other, func(v ssa.Value) bool {
+							c2, ok := v.(*ssa.Call)
+							if !ok {
+								return false
+							}
+							switch calleeName(c2) {
+							case "strings.Cut", "strings.SplitN", "strings.Split", "strings.Index", "strings.IndexByte":
+								for _, a := range c2.Call.Args[1:] {
+									if sep, ok := constString(a); ok && sep == "=" {
+										return true
+									}
+									if k, ok := constInt(a); ok && k == '=' {
+										return true
+									}
+								}
+							}
+							return false
+						}) {
+							qualified[lit] = true
+						}
+						if !callsInDerivation(other)["strings.ToLower"] && !callsInDerivation(other)["strings.ToUpper"] {
+							folded = false
+						}
 					}
 				}
 			}
